@@ -10,16 +10,19 @@ RULES = {
     "C16": "Each case is one simulated session: 1-4 clients issue LayeredArchitecture / LayerRule "
            "builder calls (sequences enumerated from the reference model up to length 6 by plan "
            "index, plus seeded random longer ones), interleaved call by call by a seeded schedule, "
+           "some clients go on using their object after a rejected call, "
            "executed under >=2 interpreter hash seeds. Distinct = distinct sha256 of the "
            "(client, op, method, object, argument form) schedule; non-trivial = the session "
            "executed at least one call the model says must be rejected or interleaved two clients.",
     "C15": "Each case is one simulated pytest-like session on shared evaluables: seeded world (tree, "
            "scan configurations, layer definitions, diagrams), 1-6 clients building and evaluating "
            "rules under a seeded schedule with re-application, cross-architecture reuse, argument "
-           "permutation, rescans under shuffled readdir order and failing predecessors, executed "
-           "under >=2 interpreter hash seeds and compared with isolated evaluations. Distinct = "
-           "distinct schedule digest; non-trivial = at least one perturbation (F1-F8) took effect "
-           "and at least one evaluation reached a verdict.",
+           "permutation, rescans under shuffled readdir order, failing predecessors, evaluations and "
+           "scans cancelled at a chosen line inside the library (F12), short-lived evaluables and rule "
+           "objects whose id() is handed to their successors (F13), executed under >=2 interpreter "
+           "hash seeds and compared with isolated evaluations. Distinct = distinct schedule digest; "
+           "non-trivial = at least one perturbation (F1-F13) took effect and at least one evaluation "
+           "reached a verdict.",
     "C13": "Each case is one simulated session of 1-4 clients issuing fluent-API call chains "
            "(single mutations of complete chains, random chains, complete chains with unknown "
            "names, entry-point option combinations) classified by an independent specification "
@@ -31,8 +34,13 @@ ASSUMPTIONS = [
     "CPython 3.12 in /venv; networkx, ast, pathlib and file reads are the real ones (files on tmpfs)",
     "only the ORDER of directory listings is stubbed (os.listdir/os.scandir wrapper); hash "
     "randomisation is CPython's own (PYTHONHASHSEED per fresh interpreter)",
-    "the library is synchronous and single-threaded; a step is one public API call and is atomic "
-    "(no pre-emption inside a call: no property states thread safety)",
+    "the library is synchronous and single-threaded; a step is one public API call; calls are never "
+    "pre-empted and resumed (no property states thread safety). C15 only: a call may be CANCELLED at "
+    "a seeded line inside the library (sys.settrace raises a BaseException there); the cancelled rule "
+    "object is not judged afterwards, the evaluable, other rule objects and later scans are",
+    "C15 only: builtins.id is wrapped so that evaluables / rule objects (and library objects two "
+    "attribute hops below them) report simulated ids; a slot freed by a `drop` step goes to the next "
+    "object of that type (real address reuse is not reproducible across processes)",
     "AssertionError (and subclasses) = verdict 'fail'; any other Exception = no verdict / rejection",
     "seeded search samples the schedule/fault space; a clean run is evidence, not proof",
 ]
@@ -129,7 +137,10 @@ def write(prop, tier, seed, run, out, samples, known_hit, reported, source):
             "real": ["pytestarch (all of it, from /repo/src working tree)", "networkx", "ast",
                      "pathlib / open on tmpfs", "CPython hash randomisation (fresh interpreters)",
                      "warnings machinery"],
-            "stub": ["order of directory listings (os.listdir / os.scandir wrapper; entries are real)"],
+            "stub": ["order of directory listings (os.listdir / os.scandir wrapper; entries are real)"]
+                    + (["object addresses as seen through id() (simulated slots, deterministic reuse)",
+                        "cancellation of a call (exception injected by a trace function at a seeded line)"]
+                       if prop == "C15" else []),
         },
         "source": source,
         "workers": run.W,
